@@ -261,7 +261,7 @@ class Scn(object):
         self.kinds = {}                      # ep -> set of kinds
         self.preconditions = {}              # ep -> count of skipped cases (documented precondition not met)
         self.slow = []                       # calls that took more than 20 s
-        self.call_limit = ctx.n(60., 300.)   # s per call; a call that takes longer is abandoned and noted (speed is no property)
+        self.call_limit = ctx.n(25., 300.)   # s per call; a call that takes longer is abandoned and noted (speed is no property)
         self.t0 = time.time()
         self.budget = ctx.n(140., 1500.)     # s; afterwards repetitions shrink to 1
         os.makedirs(SCRATCH, exist_ok=True)
@@ -951,8 +951,15 @@ def _fp_all(S):
             ('heat_transfer', lambda: fp.heat_transfer(m.copy(), T, P, Sa, Ta, st)),
             ('return_all', lambda: fp.return_all(m.copy(), T, P, Sa, Ta, st)),
         ]
+        slow = False
         for nm, th in calls:
+            if slow and nm not in ('return_all',):
+                S.skip('tamoc.dbm.FluidParticle.' + nm, 'two-phase particle whose flash takes > 3 s per call: only density and return_all are run (run-time budget)')
+                continue
+            t1 = time.time()
             S.attempt('dbm.FluidParticle.' + nm, kind, d, th)
+            if kind == 'mixed' and nm == 'density' and time.time() - t1 > 3.:
+                slow = True
 
 
 # =====================================================================================================
@@ -1935,17 +1942,18 @@ def _util_pseudo(S):
         if pre is not FAILED:
             Tc, Pc, Vc_a, M, omega, delta = pre
             S.attempt(U + 'compute_Vb', 'array', {'Vc': Vc_a}, lambda: du.compute_Vb(Vc_a.copy()))
-            if i % 5 == 0:
-                # tune Vc of every pseudo-component to its density (what load_simap_oil / load_adios_oil do)
-                nu_bar = (-2.203e-5 * Pc + 518.6 * M + 143.4) * 1.e-6
-                dH = 2.637 * Tc + 22.48e6 * nu_bar + 314.6
-                Ks = (-1.345 * M + 2799.4 * nu_bar + 0.083556) / 1000.
-                kh = du.get_henry_constant(du.get_solubility(mw, rho), sm['vapor_pressure'] * 101325., mw)
-                ud, units = du.format_dbm_data(list(nm), M, Pc, Tc, omega, kh, dH, nu_bar, Ks, Vc_a, tb, du.compute_Vb(Vc_a))
-                mf = sm['mass_fraction']
-                rho_i = rho * np.sum(rho * mf) / (1. / np.sum(mf / rho))
-                S.attempt(U + 'Vc_tuning', 'pseudo-components', dict(d, rho_i=rho_i),
-                          lambda: {k: v['Vc'] for k, v in du.Vc_tuning(mf.copy(), list(nm), sm['T_0'], sm['rho_0'], np.zeros(2), rho_i, delta, ud).items()})
+        if i % 5 == 0:
+            # tune Vc of every component to a measured density (what load_simap_oil / load_adios_oil do); database compounds with
+            # their handbook liquid densities at 15 deg C, so that this call does not depend on get_preos_params
+            dens = {'n-hexane': 664., 'n-heptane': 688., 'benzene': 884., 'toluene': 871., 'ethylbenzene': 871., 'n-decane': 734.}
+            cmp_ = r.sample(sorted(dens), r.randint(2, 4))
+            mfv = dirichlet(r, len(cmp_))
+            _c, _mf, ud2, delta2, _dg, _un = du.load_tamoc_oil({'composition': cmp_, 'masses': mfv})
+            rho_i = np.array([dens[c] * r.uniform(0.98, 1.02) for c in cmp_])
+            rho_w = 1. / np.sum(mfv / rho_i)
+            S.attempt(U + 'Vc_tuning', 'database-compounds', dict(composition=cmp_, mass_frac=mfv, rho_i=rho_i),
+                      lambda: {k: v['Vc'] for k, v in du.Vc_tuning(mfv.copy(), list(cmp_), np.array([288.15, 298.15]), np.array([rho_w, rho_w - 8.]),
+                                                                   np.zeros(2), rho_i, delta2, ud2).items()})
         if i % 5 == 0:
             S.attempt(U + 'load_simap_oil', 'synthetic-table', d,
                       lambda: (lambda res: [res[1], {k: list(v.values()) for k, v in res[2].items()}, res[3]])(du.load_simap_oil(dict(sm))))
@@ -2113,11 +2121,17 @@ def _bpm_scenario(S, k):
     crossflow for the intrusion / far-field methods, stratified water so that the plume traps, tracking on / off"""
     import scen_bpm
     r = S.r
-    mix = ('gas+inert', 'oil+inert', 'gas', 'inert', 'oil')[k % 5]
+    # k = 0: soluble particles of one composition, tracked into the far field in a crossflow (what the concentration-field
+    # methods need); then mixtures with inert particles, inert only, liquids
+    mix = ('gas', 'gas+inert', 'oil', 'inert', 'oil+inert')[k % 5]
     track = (k % 2 == 0)
-    scn = scen_bpm.random_scenario(r, nparticles=r.randint(1, 3), depth=r.uniform(300., 1500.), mix=mix,
-                                   biodeg=r.choice([False, True]), current=r.choice(['uniform', 'sheared']) if track else 'random',
-                                   strat='normal', wa=False)
+    scn = scen_bpm.random_scenario(r, nparticles=r.randint(1, 3), depth=r.uniform(800., 1500.) if k % 5 == 0 else r.uniform(300., 1500.),
+                                   mix=mix, biodeg=r.choice([False, True]),
+                                   current=r.choice(['uniform', 'sheared']) if track else 'random', strat='normal', wa=False)
+    if track and scn['profile'].get('current'):
+        for node in scn['profile']['current']['nodes']:
+            if math.hypot(node[1], node[2]) < 0.03:
+                node[1] = 0.05                       # a crossflow that can advect the intrusion
     scn['track'] = track
     scn['release']['sd_max'] = r.uniform(40., 150.)
     return scn
